@@ -374,7 +374,14 @@ func (ssc *StatefulSetController) adoptOrphanRevisions(set *apps.StatefulSet) er
 		if fresh.UID != set.UID {
 			return fmt.Errorf("original StatefulSet %v/%v is gone: got uid %v, wanted %v", set.Namespace, set.Name, fresh.UID, set.UID)
 		}
-		return ssc.control.AdoptOrphanRevisions(set, revisions)
+		// adopt the orphans only, revisions which are already controlled by the set need no adoption
+		orphanRevisions := make([]*kubeapps.ControllerRevision, 0, len(revisions))
+		for i := range revisions {
+			if metav1.GetControllerOf(revisions[i]) == nil {
+				orphanRevisions = append(orphanRevisions, revisions[i])
+			}
+		}
+		return ssc.control.AdoptOrphanRevisions(set, orphanRevisions)
 	}
 	return nil
 }
